@@ -39,14 +39,21 @@ package header
 //@   requires r != nil
 //@   ensures faults(r) > old(faults(r)) ==> err != nil
 //@   ensures err == nil ==> info != nil && len(info.Toc) >= 1
+//@   ensures err == nil ==> forall name string :: has(info.Toc, name) ==> info.Toc[name].Offset >= 12 && info.Toc[name].Offset + info.Toc[name].Length <= fsize(r)
 //@   modifies faults(r)
 //@   loop 0
 //@     invariant 0 <= i && i <= numTables && numTables <= 280 && len(coverage) == i && len(h.Toc) == i && h != nil && fresh(h)
 //@     invariant faults(r) == old(faults(r)) && (isnil(coverage) || fresh(coverage)) && h.Toc != nil && fresh(h.Toc)
+//@     invariant forall k int :: 0 <= k && k < i ==> coverage[k].Start <= coverage[k].End
+//@     invariant forall name string :: has(h.Toc, name) ==> exists k int :: hint(k, i-1) && 0 <= k && k < i && coverage[k].Start == h.Toc[name].Offset && coverage[k].End == h.Toc[name].Offset + h.Toc[name].Length
 //@     decreases numTables - i
 //@   loop 1
 //@     invariant 0 <= i && i <= 4
 //@     decreases 4 - i
 //@   loop 2
 //@     invariant 1 <= i && i <= len(coverage)
+//@     invariant forall j int :: 0 <= j && j < i ==> coverage[j].Start >= 12 && coverage[j].End <= coverage[i-1].End
+//@     invariant forall k int :: 0 <= k && k < len(coverage) ==> coverage[k].Start <= coverage[k].End
+//@     invariant h != nil && faults(r) == old(faults(r))
+//@     invariant forall name string :: has(h.Toc, name) ==> exists k int :: 0 <= k && k < len(coverage) && coverage[k].Start == h.Toc[name].Offset && coverage[k].End == h.Toc[name].Offset + h.Toc[name].Length
 //@     decreases len(coverage) - i
